@@ -180,6 +180,7 @@ def main(check, argv=None):
     harness, skipped, samples, sim_time = [], 0, [], 0.0
     violating = []
     done = 0
+    evals = distinct_evals = 0
     for i in indices:
         r = results[i]
         if r.get('skipped'):
@@ -201,6 +202,9 @@ def main(check, argv=None):
             samples.append(r['sample'])
         if r['viol']:
             violating.append((i, r))
+        if 'evals' in r:
+            evals += r['evals']
+            distinct_evals += r.get('distinct_images', 0)
 
     # ---- determinism self-test -------------------------------------------------
     det = {'checked': 0, 'mismatch_inprocess': 0, 'mismatch_fresh': 0}
@@ -296,8 +300,10 @@ def main(check, argv=None):
 
     wall = time.time() - t0
     cov = {
-        'evaluations': done,
-        'distinct_nontrivial': len(nontrivial),
+        'evaluations': evals or done,
+        'distinct_nontrivial': distinct_evals or len(nontrivial),
+        'runs': done,
+        'distinct_nontrivial_runs': len(nontrivial),
         'rule': check.rule,
         'samples': samples[:2] or [{}],
         'distinct_digests': len(digests),
